@@ -377,7 +377,7 @@ func c08GenBig(w *bufio.Writer, r *rng, n int) {
 	}
 	fmt.Fprintln(w, "look 0a090909")
 	fmt.Fprintln(w, "size")
-	for i := 0; i < 12; i++ {
+	for i := 0; i < 10; i++ { // metric i < 10: stays distinct from the 10+m of the others
 		o := 100 + r.intn(n)
 		switch r.intn(3) {
 		case 0: // refresh with a better metric (still distinct from all others: below 10)
@@ -438,8 +438,17 @@ func c08GenExhaustive(w *bufio.Writer, depth int) {
 	rec(nil, depth)
 }
 
+// c08Mix scrambles the seed (splitmix64 finaliser): newRng's streams for neighbouring seeds are one
+// stream shifted by a single draw, which makes case-structured generators coalesce.
+func c08Mix(seed int64) int64 {
+	z := uint64(seed) + 0x9E3779B97F4A7C15
+	z = (z ^ (z >> 30)) * 0xBF58476D1CE4E5B9
+	z = (z ^ (z >> 27)) * 0x94D049BB133111EB
+	return int64(z ^ (z >> 31))
+}
+
 func c08Gen(w *bufio.Writer, seed int64, tier string) {
-	r := newRng(seed)
+	r := newRng(c08Mix(seed))
 	cases, nops := 200, 40
 	if tier == "thorough" {
 		cases, nops = 5000, 50
